@@ -28,6 +28,11 @@ ASSUMPTIONS = [
 ]
 SHRINK = {"list": ["ops"]}
 
+TERM_CHAINS = ["paragraph", "reference", "blockquote", "list"]
+# every terminator context occurs in this document, on lines that no built-in rule terminates
+# (contexts are identified by the line a rule is consulted on, not by state.parentType, which lheading leaves stale)
+EXERCISER = "a\nb\n\n[r]: /u\n'title\nmore'\n\n> # h\nlazy\n\n- x\n\ny\n"
+LINE_CONTEXT = {1: "paragraph", 4: "reference", 5: "reference", 8: "blockquote", 12: "list"}
 NAMES = ["a", "b", "c", "d", "e", "f"]
 UNKNOWN = ["zz", "nope"]
 CHAINS = ["", "c1", "c2", "c3"]
@@ -49,6 +54,22 @@ def _names_arg(d: gen.D):
 @st.composite
 def _case(draw):
     d = gen.D(draw)
+    if d.chance(0.12):
+        # plugin rules registered on the block ruler with generated terminator-chain membership
+        ops = []
+        for _ in range(d.i(1, 10)):
+            k = d.weighted([(4, "add"), (3, "at"), (3, "disable"), (3, "enable"), (4, "observe")])
+            alt = [c for c in TERM_CHAINS if d.chance(0.4)]
+            if k == "add":
+                ops.append(["add", d.pick(["push", "before", "after"]), alt])
+            elif k == "at":
+                ops.append(["at", d.i(0, 5), alt])
+            elif k in ("disable", "enable"):
+                ops.append([k, d.i(0, 5)])
+            else:
+                ops.append(["observe"])
+        ops.append(["observe"])
+        return {"kind": "terminators", "preset": d.pick(["commonmark", "js-default"]), "ops": ops}
     if d.chance(0.6):
         ops = []
         for _ in range(d.i(1, 5)):
@@ -465,9 +486,76 @@ def check_facade(case, res: Res) -> None:
         res.cls.append("raising_call")
 
 
+def check_terminators(case, res: Res) -> None:
+    """Plugin rules with generated chain membership: the contexts in which each is consulted while parsing must be
+    exactly its enabled alt chains (observed through the rules themselves)."""
+    from markdown_it import MarkdownIt
+
+    md = MarkdownIt(case["preset"])
+    seen: set = set()
+    probes: list[dict] = []  # {"name","alt","enabled"}
+
+    def make(name):
+        def probe(state, startLine, endLine, silent):
+            if silent:
+                seen.add((name, startLine))
+            return False
+
+        return probe
+
+    for i, op in enumerate(case["ops"]):
+        k = op[0]
+        where = f"step {i} {op!r}"
+        if k == "add":
+            name = f"verif_probe{len(probes)}"
+            how, alt = op[1], list(op[2])
+            if how == "push":
+                md.block.ruler.push(name, make(name), {"alt": alt})
+            elif how == "before":
+                md.block.ruler.before("paragraph", name, make(name), {"alt": alt})
+            else:
+                md.block.ruler.after("reference", name, make(name), {"alt": alt})
+            probes.append({"name": name, "alt": alt, "enabled": True})
+        elif not probes:
+            continue
+        elif k == "at":
+            p = probes[op[1] % len(probes)]
+            md.block.ruler.at(p["name"], make(p["name"]), {"alt": list(op[2])})
+            p["alt"] = list(op[2])
+        elif k == "disable":
+            p = probes[op[1] % len(probes)]
+            md.disable(p["name"])
+            p["enabled"] = False
+        elif k == "enable":
+            p = probes[op[1] % len(probes)]
+            md.enable(p["name"])
+            p["enabled"] = True
+        elif k == "observe":
+            seen.clear()
+            md.parse(EXERCISER)
+            expected = {(p["name"], ln) for p in probes if p["enabled"] for ln, c in LINE_CONTEXT.items() if c in p["alt"]}
+            if seen != expected:
+                extra = sorted(seen - expected)
+                missing = sorted(expected - seen)
+                res.fail(
+                    "terminator-chain:applied-differs-from-membership",
+                    f"{where}: (probe, line) consulted although the probe is not a member of that line's chain: {extra}; members never consulted: {missing}; line->chain {LINE_CONTEXT}; probes={probes}",
+                )
+                return
+            res.nt = res.nt or len(expected) >= 2
+        act = md.get_active_rules()["block"]
+        exp_act = [p["name"] for p in probes if p["enabled"]]
+        if [n for n in act if n.startswith("verif_probe")] and sorted(n for n in act if n.startswith("verif_probe")) != sorted(exp_act):
+            res.fail("terminator-chain:reported-differs-from-model", f"{where}: active probes {[n for n in act if n.startswith('verif_probe')]} vs model {exp_act}")
+            return
+
+
 def check(case) -> Res:
     res = Res()
     res.cls.append(case["kind"])
+    if case["kind"] == "terminators":
+        check_terminators(case, res)
+        return res
     if case["kind"] == "ruler":
         check_ruler(case, res)
     else:
